@@ -252,20 +252,30 @@ def _safe_helpers(prog):
     if k not in _helpers:
         from ..cfg import cfg_of
         out = []
+        later = []
         for hb in prog.bodies.values():
             if hb.crate not in ("stun_rs", "stun_agent") or hb.kind not in ("Fn", "AssocFn") or len(hb.blocks) > 14:
                 continue
             if re.search(r"::(encode|decode|post_encode|validate|verify|fmt|new|from|try_from|into)$|check_buffer_boundaries$|fill_padding_value$|xor_|get_input_text", hb.path):
-                continue
-            if panics.sites_of(hb):
                 continue
             try:
                 if cfg_of(hb).loop_heads():
                     continue
             except Exception:
                 continue
+            if panics.sites_of(hb):
+                later.append(hb)
+                continue
             out.append(hb.path)
-        _helpers[k] = ["^(%s)$" % "|".join(re.escape(x) for x in sorted(out))] if out else []
+        mk = lambda names: ["^(%s)$" % "|".join(re.escape(x) for x in sorted(names))] if names else []
+        _helpers[k] = mk(out)
+        # second phase: small helpers whose own few sites are proved (constant arithmetic over match arms, ...) are safe to
+        # step into as well; they are proved with the first-phase set, so there is no circularity
+        more = []
+        for hb in later:
+            if len(panics.sites_of(hb)) <= 4 and prove_function(prog, hb)[0]:
+                more.append(hb.path)
+        _helpers[k] = mk(out + more)
     return _helpers[k]
 
 
